@@ -1230,7 +1230,9 @@ class SuccessionDiagram:
         Expand the succession diagram and search for attractors using default methods.
         """
         self.expand_block()
-        for node_id in self.node_ids():
+        # Only expanded nodes are considered: the attractors of an unexpanded
+        # node are also found in the expanded nodes (and would be listed twice).
+        for node_id in list(self.expanded_ids()):
             self.node_attractor_seeds(node_id, compute=True)
 
     def expand_scc(self, find_motif_avoidant_attractors: bool = True) -> bool:
